@@ -122,25 +122,41 @@ theorem apply_at_t (P : Pos) (m : Mv) (h : pseudo P m = true) :
   rw [apply_b]
   exact applyBoard_t P m (pseudo_pre P m h).2.2 (pseudo_hl P m h)
 
-theorem mem_epCands_all (P Q : Pos) (m : Mv) (hs : epShape P = true) (hw : Q.wtm = !P.wtm) : P.ep ∈ epCands true Q m := by
+theorem mem_epCands_all (P Q : Pos) (m : Mv) (hp : pseudo P m = true) (hs : epShape P = true) (hw : Q.wtm = !P.wtm)
+    (hb : (apply P m).b = Q.b) : P.ep ∈ epCands true Q m := by
   unfold epCands
   simp only [if_true]
-  unfold epShape at hs
   cases he : P.ep with
   | none => exact List.mem_cons_self
   | some e =>
-    rw [he] at hs
     apply List.mem_cons_of_mem
     rw [List.mem_map]
     refine ⟨e, ?_, rfl⟩
     rw [List.mem_filter]
     refine ⟨by simp [allSq], ?_⟩
-    rw [hw]
-    cases hp : P.wtm
-    · simp only [hp, Bool.false_eq_true, if_false, Bool.and_eq_true] at hs
-      simpa using hs.1.1.1.1
-    · simp only [hp, if_true, Bool.and_eq_true] at hs
-      simpa using hs.1.1.1.1
+    rw [Bool.and_eq_true]
+    constructor
+    · have hs' := hs
+      unfold epShape at hs'
+      rw [he] at hs'
+      rw [hw]
+      cases hpw : P.wtm
+      · simp only [hpw, Bool.false_eq_true, if_false, Bool.and_eq_true] at hs'
+        simpa using hs'.1.1.1.1
+      · simp only [hpw, if_true, Bool.and_eq_true] at hs'
+        simpa using hs'.1.1.1.1
+    · obtain ⟨a1, a2, a3⟩ := ep_traces P m e hp hs he
+      rw [apply_b] at hb
+      rw [hb] at a1 a2 a3
+      unfold gt at a1 a2 a3
+      unfold epPlausible
+      simp only [Bool.or_eq_true, Bool.and_eq_true, beq_iff_eq]
+      rw [hw]
+      cases hpw : P.wtm
+      · simp only [hpw, Bool.false_eq_true, if_false] at a1 a2 a3
+        simpa using ⟨⟨or_assoc.mpr a1, a2⟩, a3⟩
+      · simp only [hpw, if_true] at a1 a2 a3
+        simpa using ⟨⟨or_assoc.mpr a1, a2⟩, a3⟩
 
 theorem wfB_facts (p : Pos) (h : wfB p = true) :
     epShape p = true ∧ castleConsistent p = true ∧ validCodes p.b = true := by
@@ -195,7 +211,7 @@ theorem unMoves_complete (all : Bool) (Q : Pos) (x : UnMv) (h : Pred Q x)
     · rw [hui]
       exact mem_castleCands Q x.m P.castle (castle_lt P hcc) hc
     · rcases hm with rfl | he | he
-      · rw [hui]; exact mem_epCands_all P Q x.m hs hw
+      · rw [hui]; exact mem_epCands_all P Q x.m hp hs hw hb
       · unfold epCands
         rw [he]
         cases all
@@ -208,7 +224,7 @@ theorem unMoves_complete (all : Bool) (Q : Pos) (x : UnMv) (h : Pred Q x)
         · simp only [Bool.false_eq_true, if_false]
           rw [if_pos (by simpa using he.1), he.2]
           simp
-        · rw [hui]; exact mem_epCands_all P Q x.m hs hw
+        · rw [hui]; exact mem_epCands_all P Q x.m hp hs hw hb
   · unfold predB
     simp only [Bool.and_eq_true, beq_iff_eq]
     refine ⟨⟨⟨⟨?_, ?_⟩, ?_⟩, ?_⟩, ?_⟩
